@@ -15,7 +15,7 @@ from vlib.common import pmap, rng, Inconclusive
 from vlib.model import *  # noqa
 
 LEVEL = "exploration"
-FLOOR = {"quick": 1500, "thorough": 20000}
+FLOOR = {"quick": 1500, "thorough": 12000}
 CAPS = [1, 2, 3, 4, 7, 64]
 
 
@@ -80,7 +80,7 @@ def partitions(n):
 def run(ctx):
     common.build_yardl()
     quick = ctx.tier == "quick"
-    nmax = 5 if quick else 6
+    nmax = 5 if quick else 7
     ctx.rule = ("13 stream protocols whose item types carry maps / optionals / vectors / unions / arrays; item sequences of length 0..%d with alternating shapes; "
                 "all 2^(n-1) block partitions x buffer capacities %s (C++), NDJSON input x capacities, long streams with random partitions coprime to the capacity, "
                 "Python write modes. distinct = (protocol, item sequence, partition, capacity)." % (nmax, CAPS))
